@@ -323,6 +323,24 @@ func toFloatList(value any) ([]float64, error) {
 		return ret, nil
 	case []float64:
 		return val, nil
+	case []any:
+		// A JSON array: l2_distance(list(1,2,3,4), json(value)['embedding'])
+		ret := make([]float64, len(val))
+		for i := 0; i < len(val); i++ {
+			switch elem := val[i].(type) {
+			case float64:
+				ret[i] = elem
+			case string:
+				fval, err := strconv.ParseFloat(elem, 64)
+				if err != nil {
+					return nil, err
+				}
+				ret[i] = fval
+			default:
+				return nil, fmt.Errorf("Cannot convert to float list")
+			}
+		}
+		return ret, nil
 	default:
 		return nil, fmt.Errorf("Cannot convert to float list")
 	}
